@@ -1,6 +1,6 @@
 """C03 — IR built through the constructors prints to valid, faithful LLVM assembly."""
 from . import common as C
-from . import coregen, pC01, pC06, pC07, pC08
+from . import coregen, pC01, pC06, pC07, pC08, pC10
 
 TRUSTED = pC01.TRUSTED + ["constructor typing is the C06 model (resultIR) and its correspondence; numbering of constructed functions is the C08 model and its correspondence"]
 ASSUMPTIONS = pC01.ASSUMPTIONS + ["construction programs are well-typed"]
@@ -70,6 +70,10 @@ def gen(tier, rng, harness, driver):
     # getelementptr through the instruction constructor and the constant-expression constructor (every index form of C07): a well-typed construction is
     # accepted and typed as LLVM types it (a constructor that panics on a well-typed tuple fails the oracle)
     lines += [l for l in pC07.gen("quick" if tier == "quick" else "thorough", rng, harness, driver) if l.startswith(("!gep.ok", "gep.inst", "gep.expr"))][: (1500 if tier == "quick" else 60000)]
+    # floating-point constants of every kind built by the constant constructors and printed: the literal denotes the value exactly (a decimal spelling only when exact)
+    # (values for which the model predicts the recorded loss of a NaN payload belong to C10's finding, not to this property: left out)
+    cand = [l for l in (pC10.gen("quick", rng, harness) if pC10.gen.__code__.co_argcount < 4 else pC10.gen("quick", rng, harness, driver)) if l.startswith("!flt.rt")][: (1500 if tier == "quick" else 20000)]
+    lines += [l for l, pred in zip(cand, C.run_lines([driver], cand, shards=8)) if pred == "ok"]
     lines += [l for l in pC08.gen("quick", rng, harness, driver) if l.startswith(("!num.check", "num.api", "num.modapi"))][: (900 if tier == "quick" else 6000)]
     # every pair / triple of KINDS of unnamed global entity built through the Module builder methods, in every order (they share one ID sequence,
     # numbered in the order the module prints them: global variables, aliases, indirect functions, functions)
